@@ -3,6 +3,7 @@ package main
 import (
 	"bytes"
 	"encoding/json"
+	"math"
 	"sort"
 
 	cedar "github.com/cedar-policy/cedar-go"
@@ -19,11 +20,77 @@ func init() {
 
 // normJ: the normal form the JSON encoder documents: decimal / ip literal values become calls;
 // record-literal entries are compared by key (later duplicate wins).
-func normJ(n xast.IsNode) xast.IsNode {
-	b := func(x xast.BinaryNode) xast.BinaryNode { return xast.BinaryNode{Left: normJ(x.Left), Right: normJ(x.Right)} }
+func normJ(n xast.IsNode) xast.IsNode { return normG(n, false) }
+
+// normT: the normal form of the text syntax, which has no literals of set, record or extension type and no negation of a
+// non-negative integer literal: such values become the constructor expressions that denote them, and -(n) becomes the literal -n.
+func normT(n xast.IsNode) xast.IsNode { return normG(n, true) }
+
+func valueNodeT(val types.Value) xast.IsNode {
+	call := func(name, arg string) xast.IsNode {
+		return xast.NodeTypeExtensionCall{Name: types.Path(name), Args: []xast.IsNode{xast.NodeValue{Value: types.String(arg)}}}
+	}
+	switch t := val.(type) {
+	case types.Decimal:
+		return call("decimal", t.String())
+	case types.IPAddr:
+		return call("ip", t.String())
+	case types.Datetime:
+		return call("datetime", t.String())
+	case types.Duration:
+		return call("duration", t.String())
+	case types.Set:
+		var els []xast.IsNode
+		for e := range t.All() {
+			els = append(els, valueNodeT(e))
+		}
+		return normG(xast.NodeTypeSet{Elements: els}, true)
+	case types.Record:
+		var els []xast.RecordElementNode
+		for k, e := range t.All() {
+			els = append(els, xast.RecordElementNode{Key: k, Value: valueNodeT(e)})
+		}
+		return normG(xast.NodeTypeRecord{Elements: els}, true)
+	}
+	return xast.NodeValue{Value: val}
+}
+
+func allConstant(ns []xast.IsNode) bool {
+	for _, n := range ns {
+		switch v := n.(type) {
+		case xast.NodeValue:
+		case xast.NodeTypeExtensionCall:
+			if !allConstant(v.Args) {
+				return false
+			}
+		case xast.NodeTypeSet:
+			if !allConstant(v.Elements) {
+				return false
+			}
+		case xast.NodeTypeRecord:
+			for _, e := range v.Elements {
+				if !allConstant([]xast.IsNode{e.Value}) {
+					return false
+				}
+			}
+		default:
+			return false
+		}
+	}
+	return true
+}
+
+func normG(n xast.IsNode, textMode bool) xast.IsNode {
+	normJ := func(x xast.IsNode) xast.IsNode { return normG(x, textMode) }
+	b := func(x xast.BinaryNode) xast.BinaryNode {
+		return xast.BinaryNode{Left: normJ(x.Left), Right: normJ(x.Right)}
+	}
 	u := func(x xast.UnaryNode) xast.UnaryNode { return xast.UnaryNode{Arg: normJ(x.Arg)} }
 	switch v := n.(type) {
 	case xast.NodeValue:
+		if textMode {
+			return valueNodeT(v.Value)
+		}
 		switch t := v.Value.(type) {
 		case types.Decimal:
 			return xast.NodeTypeExtensionCall{Name: "decimal", Args: []xast.IsNode{xast.NodeValue{Value: types.String(t.String())}}}
@@ -38,6 +105,13 @@ func normJ(n xast.IsNode) xast.IsNode {
 	case xast.NodeTypeNot:
 		return xast.NodeTypeNot{UnaryNode: u(v.UnaryNode)}
 	case xast.NodeTypeNegate:
+		if textMode {
+			if lv, ok := v.Arg.(xast.NodeValue); ok {
+				if l, ok := lv.Value.(types.Long); ok && l >= 0 {
+					return xast.NodeValue{Value: -l}
+				}
+			}
+		}
 		return xast.NodeTypeNegate{UnaryNode: u(v.UnaryNode)}
 	case xast.NodeTypeAdd:
 		return xast.NodeTypeAdd{BinaryNode: b(v.BinaryNode)}
@@ -88,6 +162,11 @@ func normJ(n xast.IsNode) xast.IsNode {
 		for _, e := range v.Elements {
 			els = append(els, normJ(e))
 		}
+		if textMode && allConstant(els) {
+			// a set VALUE is rendered in its iteration order; element order of a set expression whose elements are all
+			// constants cannot matter beyond what evaluating it once shows (and the sampled environments do evaluate it)
+			sort.SliceStable(els, func(i, j int) bool { return exprToSx(els[i]).String() < exprToSx(els[j]).String() })
+		}
 		return xast.NodeTypeSet{Elements: els}
 	case xast.NodeTypeRecord:
 		m := map[types.String]xast.IsNode{}
@@ -114,6 +193,15 @@ func normJ(n xast.IsNode) xast.IsNode {
 	return n
 }
 
+func normPolicyT(p *xast.Policy) *xast.Policy {
+	q := normPolicyJ(p)
+	q.Conditions = nil
+	for _, c := range p.Conditions {
+		q.Conditions = append(q.Conditions, xast.ConditionType{Condition: c.Condition, Body: normT(c.Body)})
+	}
+	return q
+}
+
 func normPolicyJ(p *xast.Policy) *xast.Policy {
 	q := *p
 	q.Annotations = append([]xast.AnnotationType{}, p.Annotations...)
@@ -127,6 +215,43 @@ func normPolicyJ(p *xast.Policy) *xast.Policy {
 }
 
 func policySig(p *xast.Policy) string { return policyToSx("p", p).String() }
+
+// policySigT: signature in the text normal form; like patterns are compared as the sequence of maximal literal runs and
+// single wildcards they denote (a builder-made pattern may hold empty or adjacent literal components)
+func policySigT(p *xast.Policy) string { return normPatterns(policyToSx("p", normPolicyT(p))).String() }
+
+func normPatterns(s *Sx) *Sx {
+	if !s.IsList {
+		return s
+	}
+	if len(s.List) > 0 && !s.List[0].IsList && s.List[0].Atom == "pat" {
+		out := L(A("pat"))
+		for _, c := range s.List[1:] {
+			last := out.List[len(out.List)-1]
+			if c.IsList { // wildcard
+				if len(out.List) > 1 && last.IsList {
+					continue
+				}
+				out.List = append(out.List, c)
+				continue
+			}
+			if c.Atom == "x" {
+				continue
+			}
+			if len(out.List) > 1 && !last.IsList {
+				out.List[len(out.List)-1] = A(last.Atom + c.Atom[1:])
+				continue
+			}
+			out.List = append(out.List, c)
+		}
+		return out
+	}
+	out := &Sx{IsList: true}
+	for _, c := range s.List {
+		out.List = append(out.List, normPatterns(c))
+	}
+	return out
+}
 
 func headSig(p *xast.Policy) string {
 	q := *p
@@ -188,6 +313,14 @@ func runPolicyCodec(payload []*Sx) *Sx {
 	ot := outcomesOn(at, envs)
 	if !sameStrings(o0, ot) {
 		return problem("text-changes-meaning", string(text))
+	}
+	// the sufficient condition the check relies on beyond the sampled environments: the reparsed tree IS the rendered tree
+	// (up to the normal form of the text syntax). When it fails, search for an environment that tells the two apart.
+	if sa, st := policySigT(a), policySigT(at); sa != st {
+		if w := distinguishingEnv(a, at, envs[0]); w != "" {
+			return problem("text-changes-meaning", string(text), w)
+		}
+		return problem("text-changes-tree-no-witness", string(text), sa, st)
 	}
 	text2 := pt.MarshalCedar()
 	if !bytes.Equal(text, text2) {
@@ -333,4 +466,159 @@ func runParse(payload []*Sx) *Sx {
 		out.List = append(out.List, policyToSx("p", a))
 	}
 	return out
+}
+
+// distinguishingEnv searches contexts over boundary values of the attributes the policy reads for one on which the two
+// policies evaluate differently; "" when none is found.
+func distinguishingEnv(a, b *xast.Policy, base *Sx) string {
+	em := storeFromSx(base.List[1])
+	rq := reqFromSx(base.List[2])
+	keys := map[types.String]bool{}
+	if rc, ok := rq.C.(types.Record); ok {
+		for k := range rc.All() {
+			keys[k] = true
+		}
+	}
+	var collect func(n xast.IsNode)
+	collect = func(n xast.IsNode) {
+		switch v := n.(type) {
+		case xast.NodeTypeAccess:
+			keys[v.Value] = true
+		case xast.NodeTypeHas:
+			keys[v.Value] = true
+		}
+		forEachChild(n, collect)
+	}
+	for _, c := range a.Conditions {
+		collect(c.Body)
+	}
+	var ks []types.String
+	for k := range keys {
+		ks = append(ks, k)
+	}
+	sort.Slice(ks, func(i, j int) bool { return ks[i] < ks[j] })
+	vals := []types.Value{types.Long(0), types.Long(1), types.Long(-1), types.Long(2), types.Long(3), types.Long(math.MaxInt64), types.Long(math.MinInt64),
+		types.Long(math.MaxInt64/2 + 1), types.True, types.False, types.String("a"), types.NewSet(types.Long(1))}
+	rnd := uint64(88172645463325252)
+	next := func() uint64 { rnd ^= rnd << 13; rnd ^= rnd >> 7; rnd ^= rnd << 17; return rnd }
+	total := 1
+	for range ks {
+		if total < 5000 {
+			total *= len(vals)
+		}
+	}
+	if total > 5000 {
+		total = 5000
+	}
+	for it := 0; it < total; it++ {
+		m := types.RecordMap{}
+		x := it
+		for _, k := range ks {
+			var idx int
+			if total < 5000 {
+				idx = x % len(vals)
+				x /= len(vals)
+			} else {
+				idx = int(next() % uint64(len(vals)))
+			}
+			m[k] = vals[idx]
+		}
+		ctx := types.NewRecord(m)
+		env := xeval.Env{Entities: em, Principal: rq.P, Action: rq.A, Resource: rq.R, Context: ctx}
+		va, ea := xeval.Eval(xeval.PolicyToNode(a).AsIsNode(), env)
+		vb, eb := xeval.Eval(xeval.PolicyToNode(b).AsIsNode(), env)
+		if oa, ob := outcomeSx(va, ea).String(), outcomeSx(vb, eb).String(); oa != ob {
+			return "context=" + ctx.String() + " original=" + oa + " reparsed=" + ob
+		}
+	}
+	return ""
+}
+
+func forEachChild(n xast.IsNode, f func(xast.IsNode)) {
+	switch v := n.(type) {
+	case xast.NodeTypeAnd:
+		f(v.Left)
+		f(v.Right)
+	case xast.NodeTypeOr:
+		f(v.Left)
+		f(v.Right)
+	case xast.NodeTypeNot:
+		f(v.Arg)
+	case xast.NodeTypeNegate:
+		f(v.Arg)
+	case xast.NodeTypeAdd:
+		f(v.Left)
+		f(v.Right)
+	case xast.NodeTypeSub:
+		f(v.Left)
+		f(v.Right)
+	case xast.NodeTypeMult:
+		f(v.Left)
+		f(v.Right)
+	case xast.NodeTypeEquals:
+		f(v.Left)
+		f(v.Right)
+	case xast.NodeTypeNotEquals:
+		f(v.Left)
+		f(v.Right)
+	case xast.NodeTypeLessThan:
+		f(v.Left)
+		f(v.Right)
+	case xast.NodeTypeLessThanOrEqual:
+		f(v.Left)
+		f(v.Right)
+	case xast.NodeTypeGreaterThan:
+		f(v.Left)
+		f(v.Right)
+	case xast.NodeTypeGreaterThanOrEqual:
+		f(v.Left)
+		f(v.Right)
+	case xast.NodeTypeIn:
+		f(v.Left)
+		f(v.Right)
+	case xast.NodeTypeContains:
+		f(v.Left)
+		f(v.Right)
+	case xast.NodeTypeContainsAll:
+		f(v.Left)
+		f(v.Right)
+	case xast.NodeTypeContainsAny:
+		f(v.Left)
+		f(v.Right)
+	case xast.NodeTypeIsEmpty:
+		f(v.Arg)
+	case xast.NodeTypeGetTag:
+		f(v.Left)
+		f(v.Right)
+	case xast.NodeTypeHasTag:
+		f(v.Left)
+		f(v.Right)
+	case xast.NodeTypeAccess:
+		f(v.Arg)
+	case xast.NodeTypeHas:
+		f(v.Arg)
+	case xast.NodeTypeLike:
+		f(v.Arg)
+	case xast.NodeTypeIs:
+		f(v.Left)
+	case xast.NodeTypeIsIn:
+		f(v.Left)
+		f(v.Entity)
+	case xast.NodeTypeIfThenElse:
+		f(v.If)
+		f(v.Then)
+		f(v.Else)
+	case xast.NodeTypeSet:
+		for _, e := range v.Elements {
+			f(e)
+		}
+	case xast.NodeTypeRecord:
+		for _, e := range v.Elements {
+			f(e.Value)
+		}
+	case xast.NodeTypeExtensionCall:
+		for _, e := range v.Args {
+			f(e)
+		}
+	}
 }
